@@ -176,6 +176,7 @@ func sliceOps() []sliceOp {
 				add(fmt.Sprintf("Splice(%d,%d,%v)", start, del, ins), func(s *types.Slice[int], m *[]int) (string, string, string) {
 					arg, backing := ownedArg(ins...)
 					rem, err := s.Splice(start, del, arg...)
+					retainResult(rem, "Splice")
 					if del < 0 {
 						// an invalid count: an error (container unchanged) or treated as zero; never a panic
 						if err != nil {
@@ -250,6 +251,7 @@ func sliceOps() []sliceOp {
 				add(fmt.Sprintf("RangeAndSplice(rev=%v,first-even,del=%d,ins=%v)", rev, del, ins), func(s *types.Slice[int], m *[]int) (string, string, string) {
 					arg, backing := ownedArg(ins...)
 					rem, err := s.RangeAndSplice(func(v, i int) (bool, int, int, []int) { return even(v), i, del, arg }, rev)
+					retainResult(rem, "RangeAndSplice")
 					at := -1
 					if rev {
 						for i := len(*m) - 1; i >= 0; i-- {
@@ -312,6 +314,7 @@ func sliceOps() []sliceOp {
 		a := s.AllAndClear()
 		w := append([]int{}, *m...)
 		*m = nil
+		retainResult(a, "AllAndClear")
 		return fmt.Sprint(a), fmt.Sprint(w), ""
 	})
 	add("Len", func(s *types.Slice[int], m *[]int) (string, string, string) {
@@ -334,6 +337,29 @@ type bfsNode struct {
 	path []int
 }
 
+// Slices the container has handed out (All, AllAndClear, removed elements of a Splice): they belong
+// to the caller from then on and may not change when the container is used further.
+type retainedSlice struct {
+	got  []int
+	snap []int
+	from string
+}
+
+var sliceRetained []retainedSlice
+
+func retainResult(a []int, from string) {
+	sliceRetained = append(sliceRetained, retainedSlice{a, append([]int{}, a...), from})
+}
+
+func checkRetained() string {
+	for _, r := range sliceRetained {
+		if fmt.Sprint(r.got) != fmt.Sprint(r.snap) {
+			return fmt.Sprintf("the slice returned earlier by %s changed from %v to %v when the container was used further", r.from, r.snap, r.got)
+		}
+	}
+	return ""
+}
+
 func sliceState(s *types.Slice[int]) string {
 	var c int
 	var content string
@@ -350,6 +376,7 @@ func init() {
 		depth := Pick(c, 3, 4)
 		maxLen := 6
 		build := func(path []int) (*types.Slice[int], []int) {
+			sliceRetained = nil
 			s := types.NewSlice[int]()
 			var m []int
 			for _, oi := range path {
@@ -384,6 +411,9 @@ func init() {
 						}
 						if i := strings.IndexByte(cls, '['); i > 0 {
 							cls = cls[:i]
+						}
+						if alias == "" {
+							alias = checkRetained()
 						}
 						if alias != "" {
 							fails = append(fails, fmt.Sprintf("slice-aliasing[%s]: %s (on %v: %s)", cls, alias, before, id))
